@@ -149,6 +149,7 @@ def run(ctx):
         ctx.tie_broken.append('replay driver: ' + str(e)[:300]); rexe = None
     cfgs = ['chk', 'dbg8', 'base'] + (['dbg16'] if thorough else [])
     flags = {c: (build.CONFIGS[c]['DBL'], build.CONFIGS[c]['PTR']) for c in cfgs}
+    build.warm(cfgs, [('invalid', ['h_invalid.cpp'], dict(extra=['-I', os.path.join(build.REPO, 'src')])), ('pool', ['h_pool.cpp'], {})])
     exe = {c: build.build_harness('invalid', c, ['h_invalid.cpp'], extra=['-I', os.path.join(build.REPO, 'src')]) for c in cfgs}
     n = 6 if thorough else 1
     cases = []
